@@ -138,13 +138,10 @@ def _fvd_total(case, v):
     # fuel-volume margin inherits a relative error of that size
     if v["family"] != "fd/as" or "of=fuel_vol_delta" not in _tags(v):
         return False
-    e, tol = v.get("err"), v.get("tol")
-    d = v.get("what", "")
-    try:
-        rep = float(d.split("reported ")[1].split(",")[0])
-    except Exception:
-        return False
-    return e is not None and abs(rep) > 0 and e / abs(rep) < 5e-3
+    e = v.get("err")
+    vs = v.get("detail", {}).get("vols_sens")
+    # the spurious term is delta_i * d(fuel_vols_i)/dx with delta_i <= about 1e-3: bounded by the sensitivity of the volumes
+    return e is not None and vs is not None and e <= 2e-3 * vs
 
 
 @predicate("fuel_vol_delta_per_half")
